@@ -812,4 +812,23 @@ Section Cmds.
     - now apply (read_coll_R TZ).
     - now apply (read_coll_R TL).
   Qed.
+  (* the multi-key / multi-member reads *)
+  Lemma read_elem_R s1 s2 t k m : RR s1 s2 -> read_elem Compact s1 ts t k m = read_elem Compact s2 ts t k m.
+  Proof using ts_nz ts_T.
+    intros H. destruct (exist_cases _ _ t k H) as [(h & a & b & E1 & E2 & G1 & _) | [N1 N2]].
+    - unfold read_elem. rewrite E1, E2. cbn. now apply (R_el _ _ _ _ _ _ H).
+    - unfold read_elem, coll_header. unfold noe in N1, N2.
+      destruct (meta_get s1 t k); destruct (meta_get s2 t k); rewrite ?N1, ?N2; reflexivity.
+  Qed.
+  Lemma read_value_R s1 s2 k : RR s1 s2 -> read_value Compact s1 ts k = read_value Compact s2 ts k.
+  Proof.
+    intros H. unfold read_value.
+    destruct (kv_cases _ _ k H) as (h1 & h2 & ov1 & ov2 & x1 & x2 & E1 & E2 & C & _). now rewrite E1, E2.
+  Qed.
+  Lemma read_mget_R s1 s2 ks : RR s1 s2 -> read_mget Compact s1 ts ks = read_mget Compact s2 ts ks.
+  Proof. intros H. unfold read_mget. apply map_ext. intros k. now apply read_value_R. Qed.
+  Lemma read_exists_R s1 s2 ks : RR s1 s2 -> read_exists Compact s1 ts ks = read_exists Compact s2 ts ks.
+  Proof.
+    intros H. unfold read_exists. f_equal. f_equal. apply filter_ext. intros k. now rewrite (read_value_R _ _ k H).
+  Qed.
 End Cmds.
